@@ -46,7 +46,7 @@ def gen_cases(tier, seed):
                       "smat": [np.eye(3, dtype=int).tolist(), np.diag([2, 1, 1]).tolist(), [[1, 1, 0], [-1, 1, 0], [0, 0, 1]]][rng.integers(3)],
                       "pmat": ["P", "centring"][rng.integers(2)], "calculator": CALCS[i % len(CALCS)], "dataset": ["type1", "type1", "type2", "none"][rng.integers(4)],
                       "fc": ["full", "compact", "none"][rng.integers(3)], "nac": bool(rng.integers(2)) and not mag, "xz": bool(rng.integers(3) == 0),
-                      "custom_masses": bool(rng.integers(4) == 0), "decoys": bool(i % 2), "settings_bits": int(rng.integers(32)), "seed": int(rng.integers(10 ** 6))})
+                      "custom_masses": bool(rng.integers(4) == 0), "decoys": bool(i % 2), "settings_bits": int(rng.integers(32)), "settings_form": int(rng.integers(5)), "seed": int(rng.integers(10 ** 6))})
     for i in range(16 if tier == "quick" else 100):
         cases.append({"kind": "fileio", "crystal": {"name": names[i % len(names)]}, "smat": [np.diag([2, 1, 1]).tolist(), [[1, 1, 0], [-1, 1, 0], [0, 0, 1]]][i % 2],
                       "pmat": ["P", "centring"][i % 2], "scale": float(10 ** rng.uniform(-8, 7)), "seed": int(rng.integers(10 ** 6))})
@@ -164,9 +164,39 @@ def run_case(c):
             settings = {k: bool((c["settings_bits"] >> i) & 1) for i, k in enumerate(keys)}
             if c["fc"] != "none" and rng.integers(2):
                 settings["force_constants"] = True
-            fn = ph.save("params.yaml", settings=settings, compression=c["xz"])
+            # the dict handed to save(): all five keys | only some of them | {} | None ("only the settings expected to be updated ... are needed")
+            form = ["full", "partial", "partial", "empty", "none"][c.get("settings_form", 0) % 5]
+            if form == "partial":
+                given = {k: v for k, v in settings.items() if rng.integers(2)}
+            elif form == "empty":
+                given = {}
+            elif form == "none":
+                given = None
+            else:
+                given = dict(settings)
+            given_before = None if given is None else dict(given)
+            fn = ph.save("params.yaml", settings=given, compression=c["xz"])
             text = (lzma.open(fn, "rt").read() if fn.endswith(".xz") else open(fn).read())
             dec = block_decimals(text)
+            # what the file has to contain: the documented defaults of Phonopy.save updated by THIS call's dict (and nothing remembered from earlier calls)
+            settings = {"force_sets": True, "displacements": True, "force_constants": False, "born_effective_charge": True, "dielectric_constant": True}
+            settings.update(given or {})
+            if (given or {}).get("force_constants") is not False and c["dataset"] == "none" and c["fc"] != "none":
+                settings["force_constants"] = True
+            present = {"force_sets": bool(re.search(r"^\s+(forces|force):", text, re.M)), "displacements": bool(re.search(r"^(displacements|dataset):", text, re.M)),
+                       "force_constants": "force_constants:" in text, "born_effective_charge": "born_effective_charge:" in text, "dielectric_constant": "dielectric_constant:" in text}
+            available = {"force_sets": c["dataset"] != "none", "displacements": c["dataset"] != "none", "force_constants": c["fc"] != "none",
+                         "born_effective_charge": bool(c["nac"]), "dielectric_constant": bool(c["nac"])}
+            want = {k: bool(settings[k] and available[k]) for k in settings}
+            want["displacements"] = bool((settings["displacements"] or settings["force_sets"]) and available["displacements"])
+            obs["settings_form_" + form] = 1
+            if given is not None and given != given_before:
+                viol.append(dict(kind="save_settings_modified", msg="Phonopy.save modified the caller's settings dict: %r -> %r" % (given_before, given), settings_form=form))
+            for k in want:
+                if want[k] != present[k]:
+                    viol.append(dict(kind="save_content", msg="save(settings=%r) on a calculation with %s: '%s' %s the file (defaults updated by this dict say %s)" % (
+                        given_before, ", ".join(a for a in available if available[a]) or "nothing", k, "is missing from" if want[k] else "was written to", "write" if want[k] else "omit"),
+                        settings_form=form, field=k, expected_in_file=want[k], calculator=calc))
             if c["decoys"]:
                 # hostile environment: files with DIFFERENT content that must not take precedence over what the yaml holds
                 from phonopy.file_IO import write_FORCE_CONSTANTS, write_FORCE_SETS, write_force_constants_to_hdf5
